@@ -25,11 +25,12 @@ pub fn run_one(out: &mut Out, s: &Value) {
     let n = vcommon::n(s, "n") as usize;
     let k = vcommon::n(s, "k") as u64;
     let ovr = s.get("override").and_then(|x| x.as_bool()).unwrap_or(false);
-    let cfg = if ovr { json!({"concurrency": 8}) } else { json!({"concurrency": k}) };
+    let smart = s.get("smart").and_then(|x| x.as_bool()).unwrap_or(false);
+    let cfg = if smart { json!({"concurrency": 8, "smart": true}) } else if ovr { json!({"concurrency": 8}) } else { json!({"concurrency": k}) };
     let mut run: Run = Run::new(&cfg);
     let addrs: Vec<i64> = (0..n as i64).map(|i| 10 + i).collect();
     let mut d = json!({"c": "dial", "peer": 1, "cond": "Always", "addrs": addrs});
-    if ovr {
+    if ovr && !smart {
         d["factor"] = json!(k);
     }
     run.exec(&d);
@@ -60,6 +61,9 @@ pub fn run_one(out: &mut Out, s: &Value) {
         let applied = run.events.iter().rev().find(|e| e["e"] == "envDial").map(|e| e["applied"].as_bool().unwrap()).unwrap_or(false);
         let started = run.rig.world.with(|w| w.dials.get(slot).map(|d| d.started).unwrap_or(false));
         evs.push(json!({"e": "complete", "slot": slot, "ok": ok, "applied": applied, "was_started": started}));
+        if let Some(ms) = st.get("sleep").and_then(|x| x.as_u64()) {
+            std::thread::sleep(std::time::Duration::from_millis(ms));
+        }
         if vcommon::b(st, "poll") {
             run.exec(&json!({"c": "poll"}));
             take_final(&mut run, &mut evs);
@@ -67,12 +71,23 @@ pub fn run_one(out: &mut Out, s: &Value) {
         }
     }
     // resolve the rest (fail) and finish
+    if smart {
+        std::thread::sleep(std::time::Duration::from_millis(150));
+    }
     run.exec(&json!({"c": "poll"}));
     take_final(&mut run, &mut evs);
     evs.push(sample(&run, n));
     for _ in 0..(n + 1) {
         let open: Vec<usize> = run.rig.world.with(|w| (0..n.min(w.dials.len())).filter(|i| w.dials[*i].started && !w.dials[*i].done && !w.dials[*i].dropped && w.dials[*i].outcome.is_none()).collect());
         if open.is_empty() {
+            let unstarted = run.rig.world.with(|w| (0..n.min(w.dials.len())).any(|i| !w.dials[i].started && !w.dials[i].dropped && !w.dials[i].done));
+            if smart && unstarted {
+                std::thread::sleep(std::time::Duration::from_millis(150));
+                run.exec(&json!({"c": "poll"}));
+                take_final(&mut run, &mut evs);
+                evs.push(sample(&run, n));
+                continue;
+            }
             break;
         }
         for slot in open {
@@ -109,6 +124,7 @@ pub fn main(a: &vcommon::Args) {
             let runs = a.num(2);
             let mut out = Out::create(a.get(3));
             let nmax = a.kv_num("nmax", 4) as usize;
+            let mut nsmart = a.kv_num("smart", 0);
             let mut r = vcommon::rng(seed);
             for _ in 0..runs {
                 let n = r.gen_range(1..=nmax);
@@ -124,7 +140,16 @@ pub fn main(a: &vcommon::Args) {
                 for sl in slots {
                     steps.push(json!({"slot": sl, "ok": r.gen_bool(okp), "poll": r.gen_bool(0.7)}));
                 }
-                let s = json!({"n": n, "k": k, "override": r.gen_bool(0.5), "steps": steps});
+                let mut s = json!({"n": n, "k": k, "override": r.gen_bool(0.5), "steps": steps});
+                if nsmart > 0 {
+                    // smart dialing: staggered real-time delays (30 ms steps for private TCP addresses); no factor
+                    nsmart -= 1;
+                    s["smart"] = json!(true);
+                    s["k"] = json!(n);
+                    for st in s["steps"].as_array_mut().unwrap() {
+                        st["sleep"] = json!(r.gen_range(0..=45));
+                    }
+                }
                 run_one(&mut out, &s);
             }
             println!("runs={} events={}", out.run, out.events);
